@@ -215,8 +215,12 @@ fn diag_json(d: &LintDiagnostic, src_len: usize, display: bool) -> Value {
 fn lint_case_with(linter: &Linter, case: &Value) -> Value {
   let src = case["src"].as_str().unwrap_or("").to_string();
   let mt = media(case["media"].as_str().unwrap_or("ts"));
-  let spec = ModuleSpecifier::parse(&format!("file:///v/case.{}", ext_of(mt)))
-    .unwrap();
+  let spec = case["spec"]
+    .as_str()
+    .and_then(|s| ModuleSpecifier::parse(s).ok())
+    .unwrap_or_else(|| {
+      ModuleSpecifier::parse(&format!("file:///v/case.{}", ext_of(mt))).unwrap()
+    });
   let config = LintConfig {
     default_jsx_factory: case["jsx"].as_str().map(|s| s.to_string()),
     default_jsx_fragment_factory: case["jsxfrag"]
